@@ -131,3 +131,42 @@ Definition eucl_decide (alts : list N) (profile : list (list N)) : bool :=
   | _ => existsb (fun axis => sp_axis_profile (map strictify profile) axis && eucl_axis_feasible axis profile)
                  (perms alts)
   end.
+
+(* ---------------------------------------------------------------------------------------------- *)
+(* Fourier-Motzkin with back-substitution: a point of the solution set (an exact rational "solver"
+   for strict homogeneous systems).  Proofs/EuclidLP.v: fm_solve_sound, fm_solve_none.             *)
+Fixpoint qmaxl (x : Q) (l : list Q) : Q :=
+  match l with
+  | [] => x
+  | y :: t => let mx := qmaxl y t in if Qle_bool mx x then x else mx
+  end.
+Fixpoint qminl (x : Q) (l : list Q) : Q :=
+  match l with
+  | [] => x
+  | y :: t => let mn := qminl y t in if Qle_bool x mn then x else mn
+  end.
+
+(* a value strictly above every lower bound and strictly below every upper bound (if lowers < uppers) *)
+Definition pick_between (lowers uppers : list Q) : Q :=
+  match lowers, uppers with
+  | [], [] => 0
+  | l :: ls, [] => Qred (qmaxl l ls + 1)
+  | [], u :: us => Qred (qminl u us - 1)
+  | l :: ls, u :: us => Qred ((qmaxl l ls + qminl u us) * (1 # 2))
+  end.
+
+Definition lower_bounds (es : list Q) (sys : list lin) : list Q :=
+  map (fun q => eval (tlq q) es / (- hdq q)) (filter is_neg sys).
+Definition upper_bounds (es : list Q) (sys : list lin) : list Q :=
+  map (fun p => - eval (tlq p) es / hdq p) (filter is_pos sys).
+
+Fixpoint fm_solve (n : nat) (sys : list lin) : option (list Q) :=
+  if existsb all_zero sys then None
+  else match n with
+       | O => match sys with [] => Some [] | _ => None end
+       | S n' =>
+           match fm_solve n' (simplify (fm_step sys)) with
+           | None => None
+           | Some es => Some (pick_between (lower_bounds es sys) (upper_bounds es sys) :: es)
+           end
+       end.
